@@ -44,7 +44,7 @@ type truthFile struct {
 	mustCollect bool
 	compilable  bool
 	oversize    bool
-	either      bool // may be analysed completely or reported with an error (both satisfy the property)
+	either      bool  // may be analysed completely or reported with an error (both satisfy the property)
 	lines       []int // physical lines of functions / methods / function literals with bodies
 	funcs       []truthFunc
 }
@@ -168,6 +168,9 @@ func getC16Tree(seed uint64) (*c16Tree, error) {
 			return nil, err
 		}
 	}
+	// every fourth tree holds nothing unanalysable: strict mode must pass on it
+	// unless a fault is injected - the only trees on which a swallowed fault shows
+	clean := seed%4 == 0
 	small := func(pkg, fn string) string {
 		return "package " + pkg + "\n\nfunc " + fn + "(a int) int {\n\tf := func(x int) int { return x + 1 }\n\treturn f(a)\n}\n"
 	}
@@ -191,16 +194,6 @@ func getC16Tree(seed uint64) (*c16Tree, error) {
 	if err := add("odd/test.go", small("odd", "PlainTest"), true, true); err != nil {
 		return nil, err
 	}
-	// files the loader attaches to no package on this platform: they are part of
-	// the target, so each is either analysed or reported with an error
-	if err := add("odd/conn_windows.go", small("odd", "WindowsOnly"), true, true); err != nil {
-		return nil, err
-	}
-	c.files["odd/conn_windows.go"].either = true
-	if err := add("odd/gen_tool.go", "//go:build ignore\n\n"+small("main", "generatorHelper")+"\nfunc main() { _ = generatorHelper(1) }\n", true, true); err != nil {
-		return nil, err
-	}
-	c.files["odd/gen_tool.go"].either = true
 	if err := add(".hidden/h.go", small("hidden", "Hidden"), false, true); err != nil {
 		return nil, err
 	}
@@ -213,17 +206,17 @@ func getC16Tree(seed uint64) (*c16Tree, error) {
 	if err := add("sub/.git/hooks/x.go", small("hooks", "InDotGit"), false, true); err != nil {
 		return nil, err
 	}
-	if r.Intn(2) == 0 {
+	if r.Intn(2) == 0 && !clean {
 		if err := add("broken/b.go", "package broken\n\nfunc Broken( {\n", true, false); err != nil {
 			return nil, err
 		}
 	}
-	if r.Intn(2) == 0 {
+	if r.Intn(2) == 0 && !clean {
 		if err := add("illtyped/t.go", "package illtyped\n\nfunc IllTyped() int {\n\treturn \"not an int\"\n}\n", true, false); err != nil {
 			return nil, err
 		}
 	}
-	if r.Intn(4) == 0 {
+	if r.Intn(4) == 0 && !clean {
 		big := "package big\n\nfunc Big() int { return 1 }\n\n// " + strings.Repeat("x", 10*1024*1024+10) + "\n"
 		if err := add("big/big.go", big, true, false); err != nil {
 			return nil, err
@@ -234,7 +227,7 @@ func getC16Tree(seed uint64) (*c16Tree, error) {
 	// the link itself cannot be analysed (reported with an error), the package it
 	// sits in does not load either, and the sub-directory sorting after it is an
 	// ordinary analysable package
-	if r.Intn(2) == 0 {
+	if r.Intn(2) == 0 && !clean {
 		if err := add("links/b_real.go", small("links", "RealAfterLink"), true, false); err != nil {
 			return nil, err
 		}
@@ -243,6 +236,20 @@ func getC16Tree(seed uint64) (*c16Tree, error) {
 		}
 		os.Symlink("/nonexistent/verif/target.go", filepath.Join(c.target, "links", "a_dangling.go"))
 		c.files["links/a_dangling.go"] = &truthFile{rel: "links/a_dangling.go", mustCollect: true, compilable: false}
+	}
+	// (only in trees that already hold something unanalysable: a tree in which
+	// every file can be analysed must stay possible, strict mode has to pass there)
+	if _, bad1 := c.files["broken/b.go"]; bad1 || c.files["illtyped/t.go"] != nil || c.files["links/a_dangling.go"] != nil || c.files["big/big.go"] != nil {
+		// files the loader attaches to no package on this platform: they are part of
+		// the target, so each is either analysed or reported with an error
+		if err := add("odd/conn_windows.go", small("odd", "WindowsOnly"), true, true); err != nil {
+			return nil, err
+		}
+		c.files["odd/conn_windows.go"].either = true
+		if err := add("odd/gen_tool.go", "//go:build ignore\n\n"+small("main", "generatorHelper")+"\nfunc main() { _ = generatorHelper(1) }\n", true, true); err != nil {
+			return nil, err
+		}
+		c.files["odd/gen_tool.go"].either = true
 	}
 	// two byte-identical files at different paths (each its own package directory)
 	if r.Intn(2) == 0 {
@@ -599,6 +606,9 @@ func runC16(t *vs.Tape, cfg map[string]string) (res vs.Result) {
 		}
 		c.Inc("files_analysed_ok")
 		c.Add("functions_accounted", int64(len(tf.lines)))
+	}
+	if strict && runErr == nil {
+		c.Inc("strict_runs_that_passed")
 	}
 	if strict && notAnalysed > 0 && runErr == nil {
 		res.Violation = vs.Violationf("C16/strict-passed", "strict mode returned success although %d file(s) of the target were not analysed (faults: %v)", notAnalysed, firedDesc)
